@@ -14,6 +14,8 @@ import (
 	"strings"
 	"sync"
 
+	"github.com/dolthub/go-mysql-server/sql"
+
 	"verif/harness/core"
 	"verif/harness/g7lib"
 )
@@ -36,6 +38,7 @@ type witness struct {
 	Error    string   `json:"error,omitempty"`
 	Plan     string   `json:"plan,omitempty"`
 	Features []string `json:"features,omitempty"`
+	rawRows  []sql.Row
 }
 
 func main() {
@@ -120,8 +123,9 @@ func judge(r *core.Run, env *g7lib.Env, ev *g7lib.Evaluator, q *g7lib.Query, nam
 		}
 		r.Eval(1)
 		w.Mode, w.Error = "error", res.Err.Error()
-		dump(classifyError(q, res.Err), w)
-		r.Violation(classifyError(q, res.Err), w)
+		sig := classifyError(q, res.Err, w)
+		dump(sig, w)
+		r.Violation(sig, w)
 		return
 	}
 	r.Eval(1)
@@ -149,8 +153,9 @@ func judge(r *core.Run, env *g7lib.Env, ev *g7lib.Evaluator, q *g7lib.Query, nam
 	}
 	w.Mode, w.Extra, w.Missing, w.Note = d.Mode, d.Extra, d.Missing, d.Note
 	w.Actual = core.CanonRows(res.Rows)
+	w.rawRows = res.Rows
 	w.Plan = env.Sess.Plan(text)
-	sig := classify(q, d, w)
+	sig := classify(q, d, w, ev)
 	dump(sig, w)
 	r.Violation(sig, w)
 }
@@ -172,12 +177,6 @@ func dump(sig string, w *witness) {
 	defer f.Close()
 	b, _ := json.Marshal(map[string]any{"signature": sig, "count": 1, "witness": w})
 	f.Write(append(b, '\n'))
-}
-
-// classifyError gives an engine error on a valid query of the fragment its signature: error class,
-// message skeleton and the clause features that select the failing input class.
-func classifyError(q *g7lib.Query, err error) string {
-	return "error:" + core.StripVolatile(err.Error())
 }
 
 // featureClass is the part of a signature that names the input class: join kinds, subquery kinds,
